@@ -1199,10 +1199,9 @@ def run(rep, facts, tier):
 
 # recursive components of the call graph in scope: what bounds their depth
 RECURSION_REVIEWED = {
-    '<cell::Cell as core::fmt::Debug>::fmt': 'depth = nesting depth of the printed value; a value nested deeply enough to matter has to be built by '
-                                              'running code first (instruction limit / modest allocation, the property\'s provisos)',
-    'bitstr_ext::bitstr_concat': 'depth = nesting depth of the vector argument (same proviso)',
-    'state::join_str_vec': 'depth = nesting depth of the vector argument (same proviso)',
+    # the walkers over nested values (Debug, concat, join) were listed here as 'bounded by the nesting depth, which running code has
+    # to build first'.  An audit showed that bound to be no bound: three instructions per level build the nesting, 20000 levels
+    # overflow a debug build.  They are known findings now (known_findings.txt), not reviewed entries.
     'state::State::fetch_and_run': 'Resolve re-dispatches the instruction it has just patched, which is no longer Resolve: depth 1',
 }
 
